@@ -556,7 +556,7 @@ func genSeq(kind string) func(*rapid.T) seqCase {
 		gm := rapid.Bool().Draw(t, "gm")
 		c := seqCase{Mech: m.Name, GM: gm, Level: "test"}
 		c.Wrap = rapid.Bool().Draw(t, "wrap")
-		c.Ent = drawLen(t, "ent", m.minEntropyInstantiate(gm), 3)
+		c.Ent = drawLen(t, "ent", m.safeEntropy(gm), 3)
 		c.Nonce = drawLen(t, "nonce", m.minNonce(gm), 3)
 		c.Pers = rapid.SampledFrom([]int{0, 0, 1, 16, 32, 55, 100}).Draw(t, "pers")
 		c.Seed = rapid.Uint64().Draw(t, "seed")
@@ -596,7 +596,7 @@ func TestC17_Boundary(t *testing.T) {
 				for v := 0; v < 128; v++ {
 					bit := func(i int) bool { return v>>i&1 == 1 }
 					c := seqCase{Mech: m.Name, GM: gm, Level: "test", Wrap: bit(6),
-						Ent: m.minEntropyInstantiate(gm), Nonce: m.minNonce(gm), Seed: gen.Mix(h.Seed, uint64(v), uint64(len(m.Name)))}
+						Ent: m.safeEntropy(gm), Nonce: m.minNonce(gm), Seed: gen.Mix(h.Seed, uint64(v), uint64(len(m.Name)))}
 					if bit(0) {
 						c.Pers = 21
 					}
@@ -682,7 +682,7 @@ func TestC17_Instantiate(t *testing.T) {
 func TestC17_Levels(t *testing.T) {
 	h.Sweep(t, h.P{Name: "levels"}, func(emit func(seqCase)) {
 		mk := func(m mechSpec, gm bool, level string, interval int) seqCase {
-			c := seqCase{Mech: m.Name, GM: gm, Level: level, Ent: 2 * m.minEntropyInstantiate(gm), Nonce: 2*m.minNonce(gm) + 7,
+			c := seqCase{Mech: m.Name, GM: gm, Level: level, Ent: 2 * m.safeEntropy(gm), Nonce: 2*m.minNonce(gm) + 7,
 				Pers: 3, Seed: gen.Mix(h.Seed, uint64(interval), uint64(len(m.Name)))}
 			if !gm {
 				c.Ent, c.Nonce = 32, 16
@@ -752,7 +752,7 @@ func TestC17_InputCaps(t *testing.T) {
 		r.NT()
 		m := mechByName(c.Mech)
 		big := bigZeros()
-		ent := gen.Fill(1, 2*m.minEntropyInstantiate(true))
+		ent := gen.Fill(1, 2*m.safeEntropy(true))
 		nonce := gen.Fill(2, 2*m.minNonce(true))
 		var pers []byte
 		switch c.Which {
